@@ -542,7 +542,7 @@ class C16(Prop):
         while k < n:
             r = rng.random()
             if r < 0.25:
-                archs = rng.choice([a for a in ARCH_LISTS if len(set(a) & {"x86_64", "i686"}) in (0, len(set(a)))])
+                archs = rng.choice(ARCH_LISTS)
                 G = rng.choice([g for g in GLIBC if g[0] >= 2]) if rng.random() < 0.7 else (rng.choice([2, 2, 3]), rng.randrange(0, 60))
                 exe = gen_exe(rng, archs)
                 yield ("manylinux_is_spec", {"glibc": list(G), "archs": archs, "policy": gen_policy(rng),
@@ -589,8 +589,6 @@ class C16(Prop):
             exe = None if inp["exe_hex"] is None else bytes.fromhex(inp["exe_hex"])
             if G[0] < 2 or not all(T.is_ascii(a) for a in archs):
                 raise T.OutOfDomain("glibc major < 2 / non-ASCII")
-            if len({a in ("x86_64", "i686") for a in archs}) > 1:
-                raise T.OutOfDomain("architecture list mixes the two floor classes")
             got = real_manylinux(G, archs, pol, exe)
             want = spec_manylinux(G, archs, pol, spec_abi_ok(archs, exe))
             if got != want:
